@@ -248,8 +248,17 @@ def specLine (op out : String) : String :=
         | some ab =>
           let s := if fam == "4" then some (toHexN (fmt4 ab)) else if fam == "h" then some (toHexN (Spec.fmtHw ab))
                    else some (toHexN (fmt6 ab))
-          firstBad [(want ow "back" a).map (·.replace "violates back" "violates text-roundtrip"),
-                    match s with | some s => (want ow "s" s).map (·.replace "violates s" "violates text-form") | none => none]
+          -- what the printed text denotes according to the reference grammar (independent of the implementation's parser)
+          let denotes : Option String := match (kv ow "s").bind hexN with
+            | none => none
+            | some txt =>
+              let d := if fam == "4" then parse4 txt else if fam == "h" then Spec.parseHw 6 txt else parse6 txt
+              if d == some ab then none
+              else some s!"violates text-denotes expected={a} got={match d with | some b => toHexN b | none => "not-an-address"}"
+          firstBad [if isThrow out then some s!"violates text-format-throws {out}" else none,
+                    (want ow "back" a).map (·.replace "violates back" "violates text-roundtrip"),
+                    match s with | some s => (want ow "s" s).map (·.replace "violates s" "violates text-form") | none => none,
+                    denotes]
         | none => "unspecified"
       | "pfx", a :: p :: rest => match num a, p.toInt? with
         | some a, some pi =>
